@@ -11,6 +11,14 @@ theorem struct_exec (hS : Struct reg s) : Struct reg (exec cfg reg s t) where
   lmxWalk := lmxWalk_exec hS
   lmxBind := lmxBind_exec hS
   lmxDes := lmxDes_exec hS
+  lmxOrph := lmxOrph_exec hS
+  regPc := regPc_exec hS
+  actReg := actReg_exec hS
+  actWas := actWas_exec hS
+  bindAct := bindAct_exec hS
+  walkAct := walkAct_exec hS
+  notWasEmpty := notWasEmpty_exec hS
+  ocItems := ocItems_exec hS
   bindReg := bindReg_exec hS
   parSet := parSet_exec hS
   isoRoot := isoRoot_exec hS
@@ -34,11 +42,19 @@ theorem struct_exec (hS : Struct reg s) : Struct reg (exec cfg reg s t) where
   dyingSt := dyingSt_exec hS
   bindNotDying := bindNotDying_exec hS
 
-theorem struct_begin (hS : Struct reg s) (hi : s.pc t = .idle) : Struct reg (begin reg s t) where
-  regMx := regMx_begin hS
-  lmxWalk := lmxWalk_begin hS
+theorem struct_begin (hS : Struct reg s) (hi : s.pc t = .idle) : Struct reg (begin cfg reg s t) where
+  regMx := regMx_begin hS hi
+  lmxWalk := lmxWalk_begin hS hi
   lmxBind := lmxBind_begin hS hi
   lmxDes := lmxDes_begin hS hi
+  lmxOrph := lmxOrph_begin hS hi
+  regPc := regPc_begin hS hi
+  actReg := actReg_begin hS hi
+  actWas := actWas_begin hS hi
+  bindAct := bindAct_begin hS hi
+  walkAct := walkAct_begin hS hi
+  notWasEmpty := notWasEmpty_begin hS hi
+  ocItems := ocItems_begin hS hi
   bindReg := bindReg_begin hS hi
   parSet := parSet_begin hS hi
   isoRoot := isoRoot_begin hS hi
@@ -65,13 +81,14 @@ theorem struct_begin (hS : Struct reg s) (hi : s.pc t = .idle) : Struct reg (beg
 theorem struct_step (hS : Struct reg s) : Struct reg (step cfg reg s t) :=
   step_preserves (P := Struct reg) (fun _ _ hi h => struct_begin h hi) (fun _ _ h => struct_exec h) s t hS
 
-theorem struct_init (prog : Nat → List Op) : Struct reg (init prog) := by
+theorem struct_init (reg : List Nat) (prog : Nat → List Op) : Struct reg (init reg prog) := by
   constructor <;> simp [init, Pc.inReg, Pc.walkIdx, Pc.isBind, Pc.owns, Pc.owner, Pc.registered, Pc.snapBranch, Pc.rootBranch,
-    Pc.bindParent, Pc.destroying, Pc.bindTarget]
+    Pc.bindParent, Pc.destroying, Pc.bindTarget, Pc.atList]
+  · intro t h _; exact h
 
 /-- the structural invariant holds along every schedule -/
 theorem struct_run (cfg : Cfg) (reg : List Nat) (prog : Nat → List Op) (sched : List Nat) :
     Struct reg ((CtxTree cfg reg prog).run sched) :=
-  Sys.inv_run (CtxTree cfg reg prog) (Struct reg) (struct_init prog) (fun _ _ h => struct_step h) sched
+  Sys.inv_run (CtxTree cfg reg prog) (Struct reg) (struct_init reg prog) (fun _ _ h => struct_step h) sched
 
 end TbbVerif.C04
